@@ -1,11 +1,11 @@
 SPECIFICATION GenSpec
 CONSTANTS
-  Addrs = {"a1", "a2", "a3"}
-  Caps = {2}
-  LiveLife = 3
-  NonLiveLife = 2
-  MaxAge = 3
-  Steps = {1, 2}
+  Addrs = {"a1"}
+  Caps = {0, 2}
+  LiveLife = 50
+  NonLiveLife = 30
+  MaxAge = 55
+  Steps = {26, 30, 32, 44, 50, 54}
   KindRule = "own"
   Bug = "none"
   ExpiryJitter = 0
